@@ -33,6 +33,14 @@ TCmp ==
   /\ bad' = Note(bad, First(<<
         <<Ev.r = CompareKV(Ev.a, Ev.b), "C19:CompareKV does not order pairs as bytes.Compare orders their keys">>,
         <<Ev.rr = -Ev.r, "C19:CompareKV is not antisymmetric">> >>), "BAD")
+(* KV pairs with very long keys (around 2^15 and 2^16 - 1): header, total length and round trip *)
+TKVL ==
+  /\ Step("KVL")
+  /\ bad' = Note(bad, First(<<
+        <<Ev.hdr = <<Ev.lk % 256, Ev.lk \div 256>>, "C19:KVToBytes does not store the key length in 2 little-endian bytes (long key)">>,
+        <<Ev.lenc = 2 + Ev.lk + Ev.lv /\ Ev.keyinplace, "C19:KVToBytes layout differs for a long key (2-byte length, key, value)">>,
+        <<Ev.keyok /\ Ev.valok, "C19:KVFromBytes does not invert KVToBytes for a long key">>,
+        <<Ev.cmpself = 0 /\ Ev.cmplast = Ev.wantlast, "C19:CompareKV does not order pairs with long keys as bytes.Compare orders their keys">> >>), "BAD")
 (* a stream with one item of 16 MiB or more: the headers found at the offsets the format prescribes, the file size and
    the reader's results are logged instead of the bytes *)
 RECURSIVE SumLens(_)
@@ -51,7 +59,7 @@ THuge ==
 TPanic == /\ l <= N /\ Ev.e = "Panic" /\ l' = l + 1 /\ UNCHANGED x
           /\ bad' = Note(bad, "C19:the call panicked: " \o Ev.msg \o " (" \o Ev.where \o ")", "BAD")
 TDone == l = N + 1 /\ UNCHANGED tvars
-TNext == TStream \/ TKV \/ TCmp \/ THuge \/ TPanic \/ TDone
+TNext == TStream \/ TKV \/ TKVL \/ TCmp \/ THuge \/ TPanic \/ TDone
 TSpec == TInit /\ [][TNext]_tvars
 Good == bad = ""
 =============================================================================
